@@ -192,8 +192,8 @@ M = [
     ("C19", "unreliable-deduped", P + "client/hippo_client.py", "        if message.reliable:\n            # This is a bit crap.",
      "        if message.reliable or message.resent:\n            # This is a bit crap."),
     ("C19", "ids-reused-after-ack", P + "base/message/circuit.py",
-     "            if resend_info:\n                resend_info.completed.set_result(None)",
-     "            if resend_info:\n                resend_info.completed.set_result(None)\n                if not self.unacked_reliable and ack + 1 == self.packet_id_base and ack >= 2:\n                    self.packet_id_base = ack"),
+     "            if resend_info and not resend_info.completed.done():\n                resend_info.completed.set_result(None)",
+     "            if resend_info and not resend_info.completed.done():\n                resend_info.completed.set_result(None)\n                if not self.unacked_reliable and ack + 1 == self.packet_id_base and ack >= 2:\n                    self.packet_id_base = ack"),
     ("C19", "future-resolved-on-any-ack", P + "base/message/circuit.py",
      "            resend_info = self.unacked_reliable.pop((~message.direction, ack), None)",
      "            resend_info = self.unacked_reliable.pop((~message.direction, ack), None) or (\n                self.unacked_reliable.pop((~message.direction, ack + 1), None) if message.name == \"PacketAck\" else None)"),
